@@ -1830,8 +1830,12 @@ func unmarshalMap(info TypeInfo, data []byte, value interface{}) error {
 	if n < 0 {
 		return unmarshalErrorf("negative map size %d", n)
 	}
-	rv.Set(reflect.MakeMapWithSize(t, n))
 	data = data[p:]
+	if n > len(data)/(2*p) {
+		// every entry starts with the size fields of its key and of its value, p bytes each
+		return unmarshalErrorf("unmarshal map: unexpected eof")
+	}
+	rv.Set(reflect.MakeMapWithSize(t, n))
 	for i := 0; i < n; i++ {
 		m, p, err := readCollectionSize(mapInfo, data)
 		if err != nil {
